@@ -172,6 +172,8 @@ type instr struct {
 	nfuncs       int
 	inInit       bool
 	pkgPath      string
+	recvObj      types.Object // receiver of the method being instrumented, when package-level variables of its type exist
+	recvCands    []int        // those variables
 }
 
 func (in *instr) problem(pos token.Pos, msg string) {
@@ -228,6 +230,7 @@ type access struct {
 	id    int
 	write bool
 	pos   token.Pos
+	recv  *ast.Ident // access through the method receiver (resolved to a package-level object at run time)
 }
 
 // accessesIn collects package-level variable accesses in the "header" of a statement: everything
@@ -241,9 +244,16 @@ func (in *instr) accessesIn(n ast.Node, writes map[*ast.Ident]bool) []access {
 		switch t := x.(type) {
 		case *ast.BlockStmt, *ast.FuncLit:
 			return false
+		case *ast.SelectorExpr:
+			// x.mu where mu is a synchronisation object (a shim type with its own clock): using it is not a data access to x
+			if tv, ok := in.info.Types[t]; ok && isShimType(tv.Type) {
+				return false
+			}
 		case *ast.Ident:
 			if id, ok := in.pkgVarOf(t); ok {
-				out = append(out, access{id, writes[t], t.Pos()})
+				out = append(out, access{id, writes[t], t.Pos(), nil})
+			} else if in.recvObj != nil && in.info.Uses[t] == in.recvObj {
+				out = append(out, access{-1, writes[t], t.Pos(), t})
 			}
 		}
 		return true
@@ -288,14 +298,16 @@ func (in *instr) writeRoots(s ast.Stmt) map[*ast.Ident]bool {
 					mark(c.Args[0])
 				}
 			}
-			// method with pointer receiver called on a package-level variable: may mutate it,
-			// unless the type comes from a shim package (those carry their own clocks)
+			// A pointer-receiver method called on a package-level variable only READS the variable at the call
+			// site; what it does to the object is reported from inside the method (AccRecv), at the statement
+			// that does it - i.e. after whatever lock the method takes. Methods of other packages cannot be
+			// instrumented: those calls stay conservative writes, unless the type is a shim (own clocks).
 			if sel, ok := c.Fun.(*ast.SelectorExpr); ok {
 				if s := in.info.Selections[sel]; s != nil && s.Kind() == types.MethodVal {
 					if fn, ok := s.Obj().(*types.Func); ok {
 						if sig, ok := fn.Type().(*types.Signature); ok && sig.Recv() != nil {
 							if _, ptr := sig.Recv().Type().(*types.Pointer); ptr {
-								if p := fn.Pkg(); p == nil || !isShimmed(p.Path()) {
+								if p := fn.Pkg(); p != nil && p.Path() != in.pkgPath && !isShimmed(p.Path()) {
 									mark(sel.X)
 								}
 							}
@@ -307,6 +319,16 @@ func (in *instr) writeRoots(s ast.Stmt) map[*ast.Ident]bool {
 		return true
 	})
 	return w
+}
+
+func isShimType(t types.Type) bool {
+	if p, ok := t.(*types.Pointer); ok {
+		t = p.Elem()
+	}
+	if n, ok := t.(*types.Named); ok && n.Obj() != nil && n.Obj().Pkg() != nil {
+		return isShimmed(n.Obj().Pkg().Path())
+	}
+	return false
 }
 
 func isShimmed(path string) bool {
@@ -327,6 +349,26 @@ func (in *instr) accStmts(acc []access) []ast.Stmt {
 			continue
 		}
 		seen[k] = true
+		if a.recv != nil {
+			p := in.fset.Position(a.pos)
+			rk := "read-through-receiver"
+			if a.write {
+				rk = "write-through-receiver"
+				if !in.inInit {
+					for _, c := range in.recvCands {
+						in.staticWrites[c]++
+					}
+				}
+			}
+			in.sites = append(in.sites, site{in.file, p.Line, a.recv.Name, rk})
+			siteID := len(in.sites) + 1000*fileOrdinal(in.file)
+			args := []ast.Expr{lit(siteID), ast.NewIdent(a.recv.Name), boolLit(a.write)}
+			for _, c := range in.recvCands {
+				args = append(args, lit(c))
+			}
+			out = append(out, &ast.ExprStmt{X: vrtCall("AccRecv", args...)})
+			continue
+		}
 		kind := "read"
 		if a.write {
 			kind = "write"
@@ -434,9 +476,8 @@ func (in *instr) rewrite(f *ast.File) {
 		if why, bad := forbiddenImports[path]; bad {
 			in.problem(imp.Pos(), "import of "+path+" ("+why+")")
 		}
-		if path == "unsafe" {
-			in.problem(imp.Pos(), "import of unsafe")
-		}
+		// package unsafe is let through: views it creates are ordinary values for the scheduler, and state that
+		// is reachable only through unsafe pointers is outside the digest (stated in the check's assumptions)
 		if shim, ok := shimImports[path]; ok {
 			base := path[strings.LastIndex(path, "/")+1:]
 			if imp.Name == nil {
@@ -534,6 +575,25 @@ func (in *instr) rewrite(f *ast.File) {
 			continue
 		}
 		in.inInit = fd.Name.Name == "init" && fd.Recv == nil
+		in.recvObj, in.recvCands = nil, nil
+		if fd.Recv != nil && len(fd.Recv.List) == 1 && len(fd.Recv.List[0].Names) == 1 && fd.Recv.List[0].Names[0].Name != "_" {
+			if obj := in.info.Defs[fd.Recv.List[0].Names[0]]; obj != nil {
+				if pt, ok := obj.Type().(*types.Pointer); ok {
+					for i, v := range in.pkgVars {
+						vt := v.Type()
+						if p2, ok := vt.(*types.Pointer); ok {
+							vt = p2.Elem()
+						}
+						if types.Identical(vt, pt.Elem()) {
+							in.recvCands = append(in.recvCands, i)
+						}
+					}
+					if len(in.recvCands) > 0 {
+						in.recvObj = obj
+					}
+				}
+			}
+		}
 		in.walkBlocks(fd.Body)
 		in.nfuncs++
 		id := in.nfuncs + 1000*fileOrdinal(in.file)
